@@ -45,7 +45,7 @@ def run(ctx, rep):
     # ------------------------------------------------------------------ (a) panic census + typestate
     base_facts(F, rep)
     n_get = rule_load_before_get(F, rep)
-    rule_cache_protocol(F, rep)
+    rule_cache_protocol(F, rep, keys="consistent")
     typestate_ok = not rep.violations
 
     def extra(fn, an, pv, cs, name):
